@@ -280,7 +280,7 @@ func propPlan(c PlanCase) *vlib.Failure {
 }
 
 func TestC19Plan(t *testing.T) {
-	vlib.Check(t, 1500, 12000, func(rt *rapid.T) {
+	vlib.Check(t, 1500, 8000, func(rt *rapid.T) {
 		o := genOpts(rt)
 		c := PlanCase{Opts: o, Segs: genSegs(rt, o)}
 		c.Perm = rapid.Permutation(idx(len(c.Segs))).Draw(rt, "perm")
@@ -457,7 +457,7 @@ func genHistory(t *rapid.T) HistCase {
 }
 
 func TestC19History(t *testing.T) {
-	vlib.Check(t, 400, 4000, func(rt *rapid.T) {
+	vlib.Check(t, 400, 2500, func(rt *rapid.T) {
 		c := genHistory(rt)
 		var st histStats
 		f := propHistory(c, &st)
